@@ -32,8 +32,7 @@ def cfg_all(services):
             extra = 'credentials=["root:root", "admin:admin"]\n'
         if s == "vnc":
             extra = 'image="{SCRATCH}/vnc.png"\n'
-        if s == "ipp":
-            extra = 'storage-dir="{SCRATCH}/ipp"\n'
+        # ipp: no storage-dir, so that the document stays in the event (with one it is written to a file)
         if s == "ssh-simulator":
             extra = 'credentials=["root:root", "admin:*"]\n'
         out.append('[service.%s]\ntype="%s"\n%s' % (s.replace("-", "_"), s, extra))
@@ -269,3 +268,138 @@ def norm_reply(svc, data):
     if svc == "http":
         data = re.sub(rb'Date: [^\r\n]*\r\n', b'', data)
     return data.decode("latin1")
+
+
+# ---------------------------------------------------------------- C04 streams
+# request = {"h": header bytes (ends with its terminator), "b": body bytes, "ev": [expected event projections]}
+# `setup`: lock-step dialogue before the stream (its events are skipped by count)
+
+def rq(h, b=b"", ev=None):
+    return {"h": h if isinstance(h, bytes) else h.encode("latin1"), "b": b if isinstance(b, bytes) else b.encode("latin1"), "ev": ev or []}
+
+
+def ipp_request(op=0x000b, reqid=1, uri="ipp://localhost/printers/x", doc=b"", user=None, jobname=None):
+    def attr(tag, name, val):
+        return bytes([tag]) + struct.pack(">H", len(name)) + name.encode() + struct.pack(">H", len(val)) + val.encode()
+    body = struct.pack(">BBHI", 1, 1, op, reqid) + b"\x01"
+    body += attr(0x47, "attributes-charset", "utf-8") + attr(0x48, "attributes-natural-language", "en")
+    body += attr(0x45, "printer-uri", uri)
+    if user is not None:
+        body += attr(0x42, "requesting-user-name", user)
+    if jobname is not None:
+        body += attr(0x42, "job-name", jobname)
+    body += b"\x03" + doc
+    return body
+
+
+def http_post(path, body, ctype="application/json", host="example.org"):
+    return ("POST %s HTTP/1.1\r\nHost: %s\r\nContent-Type: %s\r\nContent-Length: %d\r\n\r\n" % (path, host, ctype, len(body))).encode()
+
+
+def dns_query(qid, name):
+    q = struct.pack(">HHHHHH", qid, 0x0100, 1, 0, 0, 0)
+    for label in name.split("."):
+        q += bytes([len(label)]) + label.encode()
+    return q + b"\x00" + struct.pack(">HH", 1, 1)
+
+
+_eth = b'{"jsonrpc":"2.0","method":"eth_blockNumber","params":[],"id":7}'
+_eos = b'{"block_num_or_id": 5}'
+_cwmp = (b'<soapenv:Envelope xmlns:soapenv="http://schemas.xmlsoap.org/soap/envelope/" xmlns:cwmp="urn:dslforum-org:cwmp-1-0">'
+         b'<soapenv:Header/><soapenv:Body><cwmp:Inform><DeviceId>x</DeviceId></cwmp:Inform></soapenv:Body></soapenv:Envelope>')
+_es = b'{"query":{"match_all":{}}}'
+_ippdoc = b"%!PS-Adobe-3.0\nhello printer\n"
+
+C04 = {
+    "ftp": {"greet": ("re", FTP_RE), "streams": [
+        [rq("USER alice\r\n", ev=[{"ftp.command": "USER alice"}]), rq("PASS s3cret\r\n", ev=[{"ftp.command": "PASS s3cret"}]),
+         rq("NOOP\r\n", ev=[{"ftp.command": "NOOP"}])],
+        [rq("SYST\r\n", ev=[{"ftp.command": "SYST"}]), rq("FEAT\r\n", ev=[{"ftp.command": "FEAT"}]),
+         rq("HELP me please\r\n", ev=[{"ftp.command": "HELP me please"}])]],
+        "keys": ["ftp.command"]},
+    "smtp": {"greet": ("re", SMTP_RE), "streams": [
+        [rq("HELO seg.example\r\n", ev=[{"type": "input", "smtp.line": "HELO seg.example"}]),
+         rq("NOOP\r\n", ev=[{"type": "input", "smtp.line": "NOOP"}]), rq("RSET\r\n", ev=[{"type": "input", "smtp.line": "RSET"}])],
+        {"setup": [line("HELO", "HELO seg.example\r\n")], "skip": 1, "reqs": [
+            rq("MAIL FROM:<a@b>\r\n", ev=[{"type": "input", "smtp.line": "MAIL FROM:<a@b>"}]),
+            rq("BDAT 27 LAST\r\n", "Subject: seg\r\n\r\nbody-text\r\n", ev=[{"type": "input", "smtp.line": "BDAT 27 LAST"},
+                                                                      {"type": "email", "smtp.Subject": "seg", "smtp.body": "body-text\r\n"}]),
+            rq("NOOP\r\n", ev=[{"type": "input", "smtp.line": "NOOP"}])]},
+        {"setup": [line("HELO", "HELO seg.example\r\n")], "skip": 1, "reqs": [
+            rq("MAIL FROM:<a@b>\r\n", ev=[{"type": "input", "smtp.line": "MAIL FROM:<a@b>"}]),
+            rq("DATA\r\n", "Subject: dot\r\n\r\nline one\r\nline two\r\n.\r\n",
+               ev=[{"type": "input", "smtp.line": "DATA"}, {"type": "email", "smtp.Subject": "dot", "smtp.body": "line one\nline two\n"}]),
+            rq("QUIT\r\n", ev=[{"type": "input", "smtp.line": "QUIT"}])]}],
+        "keys": ["type", "smtp.line", "smtp.Subject", "smtp.body"]},
+    "redis": {"greet": ("none", ""), "streams": [
+        [rq(redis_cmd("INFO"), ev=[{"redis.command": "INFO"}]), rq(redis_cmd("PING"), ev=[{"redis.command": "PING"}]),
+         rq(redis_cmd("GET", "k"), ev=[{"redis.command": "GET"}])]],
+        "keys": ["redis.command"]},
+    "memcached": {"greet": ("none", ""), "streams": [
+        [rq("stats\r\n", ev=[{"type": "memcached-command", "memcached.command": "stats"}]),
+         rq("get a\r\n", ev=[{"type": "memcached-command", "memcached.command": "get a"}]),
+         rq("flush_all\r\n", ev=[{"type": "memcached-command", "memcached.command": "flush_all"}])],
+        [rq("get a\r\n", ev=[{"type": "memcached-command", "memcached.command": "get a"}]),
+         rq("set k 0 0 5\r\n", "hello\r\n", ev=[{"type": "memcached-command", "memcached.command": "set k 0 0 5"},
+                                              {"type": "memcached-set", "memcached.key": "k", "memcached.bytes": "5", "payload": "hello"}]),
+         rq("stats\r\n", ev=[{"type": "memcached-command", "memcached.command": "stats"}])]],
+        "keys": ["type", "memcached.command", "memcached.key", "memcached.bytes", "payload"]},
+    "telnet": {"greet": ("quiet", ""), "streams": [
+        {"setup": [raw("user", b"alice\r\n"), raw("pass", b"pw\r\n")], "skip": 0, "reqs": [
+            rq("uname -a\r\n", ev=[{"type": "session", "telnet.command": "uname -a"}]),
+            rq("id\r\n", ev=[{"type": "session", "telnet.command": "id"}]),
+            rq("cat /etc/passwd\r\n", ev=[{"type": "session", "telnet.command": "cat /etc/passwd"}])]}],
+        "keys": ["type", "telnet.command"]},
+    "http": {"greet": ("none", ""), "streams": [
+        [rq(http_req("GET", "/a"), ev=[{"http.method": "GET", "http.url": "/a", "payload": ""}]),
+         rq(http_post("/b", b"0123456789abcdef"), b"0123456789abcdef", ev=[{"http.method": "POST", "http.url": "/b", "payload": "0123456789abcdef"}]),
+         rq(http_req("GET", "/c"), ev=[{"http.method": "GET", "http.url": "/c", "payload": ""}])],
+        [rq(http_req("GET", "/one"), ev=[{"http.method": "GET", "http.url": "/one", "payload": ""}]),
+         rq(http_req("HEAD", "/two"), ev=[{"http.method": "HEAD", "http.url": "/two", "payload": ""}]),
+         rq(http_req("DELETE", "/three"), ev=[{"http.method": "DELETE", "http.url": "/three", "payload": ""}])]],
+        "keys": ["http.method", "http.url", "payload"]},
+    "ldap": {"greet": ("none", ""), "streams": [
+        [rq(ldap_bind(1, "cn=root,dc=x", "pw"), ev=[{"ldap.message-id": 1, "ldap.request-type": "bind", "ldap.username": "root", "ldap.password": "pw"}]),
+         rq(ldap_search(2, "dc=example,dc=com", "uid", "bob"), ev=[{"ldap.message-id": 2, "ldap.request-type": "search", "ldap.search-filtervalue": "bob"}]),
+         rq(ldap_add(3, "cn=n,dc=x"), ev=[{"ldap.message-id": 3, "ldap.request-type": "add"}])]],
+        "keys": ["ldap.message-id", "ldap.request-type", "ldap.username", "ldap.password", "ldap.search-filtervalue"]},
+    "elasticsearch": {"greet": ("none", ""), "one": True, "streams": [
+        [rq(http_post("/_search", _es), _es, ev=[{"http.method": "POST", "http.url": "/_search", "payload": _es.decode()}])]],
+        "keys": ["http.method", "http.url", "payload"]},
+    "docker": {"greet": ("none", ""), "one": True, "streams": [
+        [rq(http_post("/v1.24/containers/create", _es), _es, ev=[{"http.method": "POST", "http.url": "/v1.24/containers/create", "payload": _es.decode()}])]],
+        "keys": ["http.method", "http.url", "payload"]},
+    "eos": {"greet": ("none", ""), "one": True, "streams": [
+        [rq(http_post("/v1/chain/get_block", _eos), _eos, ev=[{"http.method": "POST", "eos.method": "/v1/chain/get_block", "payload": _eos.decode()}])]],
+        "keys": ["http.method", "eos.method", "payload"]},
+    "ethereum": {"greet": ("none", ""), "one": True, "streams": [
+        [rq(http_post("/", _eth), _eth, ev=[{"http.method": "POST", "ethereum.method": "eth_blockNumber", "payload": _eth.decode()}])]],
+        "keys": ["http.method", "ethereum.method", "payload"]},
+    "cwmp": {"greet": ("none", ""), "one": True, "streams": [
+        [rq(http_post("/", _cwmp, "text/xml"), _cwmp, ev=[{"http.method": "POST", "cwmp.method": "Inform", "http.body": _cwmp.decode()}])]],
+        "keys": ["http.method", "cwmp.method", "http.body"]},
+    "ipp": {"greet": ("none", ""), "one": True, "streams": [
+        [rq(http_post("/printers/x", ipp_request(0x0002, 9, user="alice", jobname="job-1", doc=_ippdoc), "application/ipp"),
+            ipp_request(0x0002, 9, user="alice", jobname="job-1", doc=_ippdoc),
+            ev=[{"http.url": "/printers/x", "ipp.uri": "ipp://localhost/printers/x", "ipp.user": "alice", "ipp.job-name": "job-1",
+                 "ipp.data": _ippdoc.decode()}])]],
+        "keys": ["http.url", "ipp.uri", "ipp.user", "ipp.job-name", "ipp.data"]},
+}
+
+C04_UDP = {
+    "dns": {"dgrams": [(dns_query(0x1111, "a.example.org"), [{"dns.id": "4369"}]), (dns_query(0x2222, "b.example.org"), [{"dns.id": "8738"}]),
+                       (dns_query(0x3333, "c.example.org"), [{"dns.id": "13107"}])], "keys": ["dns.id"]},
+    "tftp": {"dgrams": [(tftp_rrq("x.bin"), [{"type": "tftp-read", "tftp.filename": "x.bin\x00"}]),
+                        (tftp_wrq("y.bin"), [{"type": "tftp-write", "tftp.filename": "y.bin\x00"}]),
+                        (tftp_rrq("z.bin"), [{"type": "tftp-read", "tftp.filename": "z.bin\x00"}])], "keys": ["type", "tftp.filename"]},
+    "snmp": {"dgrams": [(bytes.fromhex("302602010004067075626c6963a01902040100000102010002010030 0b300906052b060102010500".replace(" ", "")), [{"type": "get-request", "snmp.community": "public"}]),
+                        (bytes.fromhex("302602010004067075626c6963a11902040100000202010002010030 0b300906052b060102010500".replace(" ", "")), [{"type": "get-next-request", "snmp.community": "public"}]),
+                        (bytes.fromhex("302602010004067075626c6963a01902040100000302010002010030 0b300906052b060102010500".replace(" ", "")), [{"type": "get-request", "snmp.community": "public"}])],
+             "keys": ["type", "snmp.community"]},
+    "memcached": {"dgrams": [(b"\x00\x01\x00\x00\x00\x01\x00\x00stats\r\n", [{"memcached.command": "stats"}]),
+                             (b"\x00\x02\x00\x00\x00\x01\x00\x00get k\r\nflush_all\r\n", [{"memcached.command": "get k"}, {"memcached.command": "flush_all"}]),
+                             (b"\x00\x03\x00\x00\x00\x01\x00\x00get z\r\n", [{"memcached.command": "get z"}])], "keys": ["memcached.command"]},
+    "counterstrike": {"dgrams": [(b"\xff\xff\xff\xffTSource Engine Query\x00", [{"counterstrike.query": "a2s_info"}]),
+                                 (b"\xff\xff\xff\xff\x55\xff\xff\xff\xff", [{"counterstrike.query": "a2s_player"}]),
+                                 (b"\xff\xff\xff\xff\x56\xff\xff\xff\xff", [{"counterstrike.query": "a2s_rules"}])], "keys": ["counterstrike.query"]},
+}
